@@ -60,6 +60,15 @@ CHECKS = {
             'Generated data, mixed basis-function lists, add_one, single_core, second data set (Gram) and HOCUR settings; the '
             'transformed data tensor is compared with the explicit product formula. Exploration, not proof.',
             'HOCUR ranks >= m; ill-conditioned cases (singular-value ratios of an unfolding in (1e-13, 1e-4)) are discarded.', '3/C15'),
+    'C06': ('property-based testing (Hypothesis): model-based operation histories with shadow copies + exhaustive producer x layout x follow-up cross product',
+            'Generated call histories (10..40 steps over a pool of live tensor trains, results fed back as operands, in-place and '
+            'overwrite variants interleaved, rank-1 bonds / F-ordered / transposed-view cores) with a shadow of every live object '
+            'compared after every step; plus the complete enumeration of 29 result-returning producers x 7 layout classes x 10 '
+            'in-place follow-ups (snapshot before the call: the call itself and later in-place operations on any result must leave '
+            'operands and sibling results unchanged); plus an API sweep for TT-returning functions no other check receives. '
+            'Exploration with an exhaustive finite part; not a proof.',
+            'Unchanged = equal shape metadata and dense value to 1e-10 relative; library exceptions inside history rules are '
+            'counted, not judged; solver rules use harness-made well-conditioned operators and admissible guesses.', '3/C06'),
     'C07': ('property-based testing (Hypothesis): dense numpy.linalg.solve reference, energy-norm descent, fixed point, solve == lu',
             'Generated Hermitian positive-definite systems (real/complex, dense and local-sum operators, N <= 64/256), guess classes '
             '(maximal, rank 1, admissible incl. left-over-parameterised, exact solution in a random gauge), repeats, micro-solvers, '
